@@ -19,11 +19,9 @@ import (
 	"verifh/vh"
 )
 
-const (
-	sigRhhEmpty  = "rhh-empty-key-miscounts-len"
-	sigRadixDead = "radix-min-max-after-deleteprefix"
-	sigIDTrunc   = "seriesidset-ids-truncated-to-32-bits"
-)
+// known finding still open; the former rhh empty-key and radix dead-node findings are fixed in
+// influxdb: their shapes are still generated, untagged, so a regression is a violation again
+const sigIDTrunc = "seriesidset-ids-truncated-to-32-bits"
 
 type key []int // byte values (JSON-readable, loss-free)
 
@@ -99,10 +97,6 @@ type jcase struct {
 	RWalk   []kv       `json:"impl_radix_walk,omitempty"`
 	SObs    [][]uint64 `json:"impl_idset_obs,omitempty"`
 	SFin    [][]uint64 `json:"impl_idset_final,omitempty"`
-	Skipped int        `json:"skipped_would_hang,omitempty"`
-	// replay-only switch of the demo of the rhh empty-key finding: do not skip the Put that
-	// makes the real map spin forever (the watchdog then reports it as an implementation failure)
-	AllowHang bool `json:"allow_hang,omitempty"`
 }
 
 func scribble(b []byte) {
@@ -127,12 +121,6 @@ func runRhh(w *vh.W, c *jcase) {
 			kb := o.K.b()
 			if len(kb) == 0 {
 				hasEmpty = true
-			}
-			// The empty-key miscount of Len (known finding) can fill the table completely; the
-			// next insert of a new key without a preceding grow would spin forever. Skip that op.
-			if !c.AllowHang && !truth[string(kb)] && int64(len(truth)) >= m.Cap() && !(m.Len()+1 > m.Cap()*int64(c.LF)/100) {
-				c.Skipped++
-				continue
 			}
 			m.Put(kb, int(o.V))
 			truth[string(kb)] = true
@@ -185,19 +173,12 @@ func runRhh(w *vh.W, c *jcase) {
 		keys = append(keys, k.term())
 	}
 	t := fmt.Sprintf("CRhh %s %s %s %s %s %s %s", vh.N(uint64(c.Cap)), vh.N(uint64(c.LF)), vh.List(tab), vh.List(ops), vh.List(obs), vh.List(keys), vh.Ns(c.HGets))
-	sig := ""
-	if hasEmpty {
-		sig = sigRhhEmpty
-	}
-	w.Add(t, c, nput >= 3 && len(truth) >= 2, sig)
+	w.Add(t, c, nput >= 3 && len(truth) >= 2, "")
 	w.Count("kind", "rhh")
 	w.Count("rhh_final_cap", fmt.Sprint(m.Cap()))
 	w.Count("rhh_lf", fmt.Sprint(c.LF))
 	if hasEmpty {
 		w.Count("rhh_empty_key", "yes")
-	}
-	if c.Skipped > 0 {
-		w.Count("rhh_would_hang_put_skipped", "yes")
 	}
 }
 
@@ -443,11 +424,7 @@ func runRadix(w *vh.W, c *jcase) {
 		return false
 	})
 	term := fmt.Sprintf("CRadix %s %s %s", vh.List(ops), vh.List(obs), vh.List(wlk))
-	sig := ""
-	if dead { // shape: a Minimum/Maximum query after some DeletePrefix
-		sig = sigRadixDead
-	}
-	w.Add(term, c, nins >= 3, sig)
+	w.Add(term, c, nins >= 3, "")
 	w.Count("kind", "radix")
 	w.Count("radix_class", map[bool]string{true: "minmax-after-delete", false: "other"}[dead])
 }
@@ -455,7 +432,15 @@ func runRadix(w *vh.W, c *jcase) {
 func genRadix(w *vh.W) *jcase {
 	r := w.Rng
 	c := &jcase{Kind: "radix"}
-	class := r.IntN(4) // 0: no deletes; 1: deletes, no min/max; 2: everything; 3: wide alphabet (>16 edges), no deletes
+	// 0: no deletes; 1: deletes, no min/max; 2: everything; 3: wide alphabet (>16 edges), no deletes;
+	// 4,5: two-letter alphabet, keys grown from stored keys (long shared prefixes => compressed
+	// multi-byte edges with children below), DeletePrefix arguments that DIVERGE inside an edge
+	// label: a stored key with one middle byte flipped / a middle chunk cut out / truncated and
+	// continued with a byte that also occurs below
+	class := r.IntN(6)
+	if class >= 4 {
+		return genRadixDivergent(w)
+	}
 	alpha := []byte("abc")
 	if class == 3 {
 		alpha = []byte{0, 1, 2, 3, 4, 5, 6, 7, 8, 9, 10, 11, 12, 13, 14, 15, 16, 17, 18, 19, 'a', 0xfe, 0xff}
@@ -515,6 +500,86 @@ func genRadix(w *vh.W) *jcase {
 			if class != 1 {
 				c.Ops = append(c.Ops, op{Op: "max"})
 			}
+		}
+	}
+	return c
+}
+
+func genRadixDivergent(w *vh.W) *jcase {
+	r := w.Rng
+	c := &jcase{Kind: "radix"}
+	letter := func() byte { return "ab"[r.IntN(2)] }
+	var used []key
+	grow := func() key { // a stored key extended by 1-3 letters, or a fresh word of 3-5 letters
+		var b []byte
+		if len(used) > 0 && r.IntN(4) != 0 {
+			b = append(b, used[r.IntN(len(used))].b()...)
+			if len(b) > 9 {
+				b = b[:3+r.IntN(4)]
+			}
+			for n := 1 + r.IntN(3); n > 0; n-- {
+				b = append(b, letter())
+			}
+		} else {
+			for n := 3 + r.IntN(3); n > 0; n-- {
+				b = append(b, letter())
+			}
+		}
+		return mk(b)
+	}
+	flip := func(x byte) byte { return 'a' + 'b' - x }
+	divergent := func() key {
+		if len(used) == 0 {
+			return mk([]byte{letter()})
+		}
+		k := used[r.IntN(len(used))].b()
+		if len(k) < 2 {
+			return mk(append(k, letter()))
+		}
+		switch r.IntN(4) {
+		case 0: // flip one byte in the middle, keep some of the tail
+			j := r.IntN(len(k))
+			b := append([]byte{}, k...)
+			b[j] = flip(b[j])
+			return mk(b[:j+1+r.IntN(len(k)-j)])
+		case 1: // cut a chunk out of the middle
+			j := r.IntN(len(k) - 1)
+			n := 1 + r.IntN(len(k)-1-j)
+			b := append(append([]byte{}, k[:j]...), k[j+n:]...)
+			return mk(b)
+		case 2: // truncate and continue with another letter (+ maybe more)
+			j := 1 + r.IntN(len(k)-1)
+			b := append(append([]byte{}, k[:j]...), flip(k[j]))
+			for n := r.IntN(3); n > 0; n-- {
+				b = append(b, letter())
+			}
+			return mk(b)
+		default: // an honest prefix / the key itself / an extension
+			j := r.IntN(len(k) + 1)
+			b := append([]byte{}, k[:j]...)
+			if r.IntN(3) == 0 {
+				b = append(b, letter())
+			}
+			return mk(b)
+		}
+	}
+	nops := 12 + r.IntN(40)
+	for i := 0; i < nops; i++ {
+		switch x := r.IntN(100); {
+		case x < 50 || len(used) < 4:
+			k := grow()
+			used = append(used, k)
+			c.Ops = append(c.Ops, op{Op: "insert", K: k, Txt: string(k.b()), V: int64(1 + i)})
+		case x < 60:
+			k := divergent()
+			c.Ops = append(c.Ops, op{Op: "get", K: k, Txt: string(k.b())})
+		case x < 90:
+			k := divergent()
+			c.Ops = append(c.Ops, op{Op: "delprefix", K: k, Txt: string(k.b())})
+		case x < 95:
+			c.Ops = append(c.Ops, op{Op: "min"})
+		default:
+			c.Ops = append(c.Ops, op{Op: "max"})
 		}
 	}
 	return c
@@ -807,16 +872,8 @@ func run(w *vh.W, c *jcase) {
 			w.Fail(idx, "panic in "+c.Kind+": "+p, "")
 		}
 	case <-time.After(20 * time.Second):
-		sig := ""
-		if c.Kind == "rhh" { // shape: a Put of the empty key (known finding: Len miscount can fill the table)
-			for _, o := range c.Ops {
-				if o.Op == "put" && len(o.K) == 0 {
-					sig = sigRhhEmpty
-				}
-			}
-		}
-		idx := w.Add("CRadix [] [] []", c, false, sig)
-		w.Fail(idx, "operation history on "+c.Kind+" did not terminate within 20s (the goroutine is still spinning)", sig)
+		idx := w.Add("CRadix [] [] []", c, false, "")
+		w.Fail(idx, "operation history on "+c.Kind+" did not terminate within 20s (the goroutine is still spinning)", "")
 	}
 }
 
@@ -836,14 +893,19 @@ func handPicked() []*jcase {
 	return []*jcase{
 		// rhh: growth from the smallest table, overwrite, reset
 		{Kind: "rhh", Cap: 0, LF: 90, Universe: uni("k1", "k2", "k3", "k4", "k5"), Ops: []op{put("k1", 1), put("k2", 2), put("k1", 3), get("k1"), put("k3", 4), put("k4", 5), put("k5", 6), get("k2"), get("k9"), {Op: "grow", M: 33}, get("k5"), {Op: "reset"}, get("k1"), put("k1", 7)}},
-		// rhh known finding: the empty key
+		// rhh: the empty key (former finding, fixed: Len must count it)
 		{Kind: "rhh", Cap: 4, LF: 90, Universe: uni("", "a"), Ops: []op{put("", 5), get(""), put("a", 6), get("a"), put("", 7), get("")}},
+		// rhh: Capacity 2, LoadFactor 100, empty key then two more keys (spun forever before the fix)
+		{Kind: "rhh", Cap: 2, LF: 100, Universe: uni("", "k0", "k1"), Ops: []op{put("", 1), put("k0", 2), put("k1", 3), get(""), get("k0"), get("k1")}},
 		// bloom
 		{Kind: "bloom", M: 64, K: 3, Ops: []op{rk("contains", "a"), rk("insert", "a"), rk("contains", "a"), rk("insert", ""), rk("contains", ""), {Op: "merge", M: 64, K2: 3, Keys: uni("b", "c")}, rk("contains", "b"), {Op: "merge", M: 128, K2: 3, Keys: uni("d")}, {Op: "clone", Keys: uni("zz")}, rk("contains", "zz"), rk("contains", "c")}},
 		// radix: splits, insert-if-absent, prefix key, delete
 		{Kind: "radix", Ops: []op{rins("abc", 1), rins("abd", 2), rins("ab", 3), rins("abc", 9), rk("get", "abc"), rk("get", "a"), rins("", 4), {Op: "min"}, {Op: "max"}, rins("b", 5), rk("delprefix", "ab"), rk("get", "abd"), rk("get", "b"), rk("delprefix", "zz"), rk("delprefix", "")}},
-		// radix known finding: Minimum/Maximum after DeletePrefix left a dead node behind
+		// radix: Minimum/Maximum after DeletePrefix (former finding, fixed: the emptied node is unlinked)
 		{Kind: "radix", Ops: []op{rins("a", 1), rins("b", 2), rk("delprefix", "a"), {Op: "min"}, rins("c", 3), rk("delprefix", "c"), {Op: "max"}}},
+		// radix: DeletePrefix whose argument diverges inside a compressed edge label while the node below
+		// has a child starting with the diverging byte: nothing may be deleted
+		{Kind: "radix", Ops: []op{rins("server01", 1), rins("server010", 2), rins("server011", 3), rk("delprefix", "server1"), rk("get", "server011"), rk("delprefix", "sarver01"), rk("delprefix", "server0"), rk("get", "server01")}},
 		// idset: container boundaries, algebra, round trip
 		{Kind: "idset", Ops: []op{{Op: "addmany", I: 0, IDs: []uint64{1, 65535, 65536, 1<<32 - 1}}, {Op: "addrange", I: 1, Lo: 65530, Cnt: 12}, {Op: "and", I: 0, J: 1, D: 2}, {Op: "andnot", I: 1, J: 0, D: 3}, {Op: "roundtrip", I: 1, D: 0}, {Op: "equals", I: 0, J: 1}, {Op: "remove", I: 0, ID: 65536}, {Op: "equals", I: 0, J: 1}, {Op: "diff", I: 1, J: 3}, {Op: "card", I: 1}, {Op: "foreach", I: 1}}},
 		// idset known finding: ids beyond 32 bits alias
@@ -853,7 +915,7 @@ func handPicked() []*jcase {
 
 func main() {
 	w := vh.New("C36", "From Verif Require Import Base.Prelude Model.C36.\nFixpoint nrange (lo : N) (n : nat) : list N := match n with O => [] | S n' => lo :: nrange (lo + 1)%N n' end.", "case", "check")
-	w.Rule = "operation histories, one structure per case (round robin rhh / bloom / radix / idset). rhh: capacity in {0,2,3,4,5,8,16} (rounded by pow2), load factor in {30,50,75,80,90,100}, 2-13 keys drawn from a pool whose HashKey home slots mod 16 fall into buckets {15,0,1,7,3} (dense collisions, wrap-around), 4-43 ops Put 60% / Get 30% / Grow 6% / Reset 4%, Len+Cap observed after every op, Keys() and Get of every key at the end; 1 in 8 cases also uses the empty key (known finding). bloom: m in {1,8,64,100,128,512}, k in 0..4, keys of length 0-3 over {a,b,z,0x00,0xff}, Insert/Contains/Merge (compatible and mismatched m,k)/Clone-then-mutate-original, all results and the final bit set observed. radix: keys of length 0-5 over {a,b,c} biased to share prefixes (plus a class with a 23-symbol alphabet incl. 0x00/0xff for nodes with more than 16 edges), Insert 45% / Get 20% / DeletePrefix 15% / Minimum 10% / Maximum 10%, classes without deletes, with deletes but no min/max, and with everything (known finding); final pre-order walk via hook. idset: 4 set variables, ids around roaring container boundaries (0, 65535/6/7, 131071/2/3, 2^31, 2^32-2, 2^32-1), dense ranges crossing 65536 and (1 case in 25) 4096-element containers, 1 in 8 cases with ids >= 2^32 (known finding); Add/AddMany/Remove/Contains/Cardinality/Merge/MergeInPlace/And/AndNot/Diff/Intersects/Equals/Clone/WriteTo+UnmarshalBinary/Clear/Slice/ForEach. Non-trivial: rhh >= 3 puts over >= 2 keys; bloom >= 2 inserts with k >= 1; radix >= 3 inserts; idset >= 3 ids in the final sets. Distinct: distinct Gallina terms."
+	w.Rule = "operation histories, one structure per case (round robin rhh / bloom / radix / idset). rhh: capacity in {0,2,3,4,5,8,16} (rounded by pow2), load factor in {30,50,75,80,90,100}, 2-13 keys drawn from a pool whose HashKey home slots mod 16 fall into buckets {15,0,1,7,3} (dense collisions, wrap-around), 4-43 ops Put 60% / Get 30% / Grow 6% / Reset 4%, Len+Cap observed after every op, Keys() and Get of every key at the end; 1 in 8 cases also uses the empty key. bloom: m in {1,8,64,100,128,512}, k in 0..4, keys of length 0-3 over {a,b,z,0x00,0xff}, Insert/Contains/Merge (compatible and mismatched m,k)/Clone-then-mutate-original, all results and the final bit set observed. radix: keys of length 0-5 over {a,b,c} biased to share prefixes (plus a class with a 23-symbol alphabet incl. 0x00/0xff for nodes with more than 16 edges), Insert 45% / Get 20% / DeletePrefix 15% / Minimum 10% / Maximum 10%, classes without deletes, with deletes but no min/max, and with everything; one radix case in three uses a two-letter alphabet with keys grown from stored keys (compressed multi-byte edges with children) and DeletePrefix/Get arguments that diverge inside an edge label (a stored key with a middle byte flipped, a middle chunk cut out, or truncated and continued with the other letter); final pre-order walk via hook. idset: 4 set variables, ids around roaring container boundaries (0, 65535/6/7, 131071/2/3, 2^31, 2^32-2, 2^32-1), dense ranges crossing 65536 and (1 case in 25) 4096-element containers, 1 in 8 cases with ids >= 2^32 (known finding); Add/AddMany/Remove/Contains/Cardinality/Merge/MergeInPlace/And/AndNot/Diff/Intersects/Equals/Clone/WriteTo+UnmarshalBinary/Clear/Slice/ForEach. Non-trivial: rhh >= 3 puts over >= 2 keys; bloom >= 2 inserts with k >= 1; radix >= 3 inserts; idset >= 3 ids in the final sets. Distinct: distinct Gallina terms."
 	initPool()
 	var rc jcase
 	if w.ReplayCase(&rc) {
